@@ -431,8 +431,18 @@ type VResult struct {
 func (e *Env) doVerify(v VOpts) ([]string, []VResult, error) {
 	u := getUniverse()
 	var rs []VResult
+	var held []integrity.VerifyResult
 	opts := v.build()
 	opts = append(opts, integrity.OptVerifyCallback(func(r integrity.VerifyResult) bool {
+		held = append(held, r) // read only after Verify has returned: results must stay valid
+		return false
+	}))
+	ver, err := integrity.NewVerifier(e.f, opts...)
+	if err != nil {
+		return []string{"v newerr:" + ierrClass(err)}, nil, err
+	}
+	verr := ver.Verify()
+	for _, r := range held {
 		vr := VResult{Sig: r.Signature().ID(), Entity: u.pgpIndex(r.Entity())}
 		for _, d := range r.Verified() {
 			vr.Verified = append(vr.Verified, d.ID())
@@ -445,14 +455,9 @@ func (e *Env) doVerify(v VOpts) ([]string, []VResult, error) {
 			vr.Err = ierrClass(r.Error())
 		}
 		rs = append(rs, vr)
-		return false
-	}))
-	ver, err := integrity.NewVerifier(e.f, opts...)
-	if err != nil {
-		return []string{"v newerr:" + ierrClass(err)}, nil, err
 	}
-	if err := ver.Verify(); err != nil {
-		return []string{"v err:" + ierrClass(err)}, rs, err
+	if verr != nil {
+		return []string{"v err:" + ierrClass(verr)}, rs, verr
 	}
 	ls := []string{fmt.Sprintf("v ok n=%d", len(rs))}
 	for _, r := range rs {
